@@ -114,7 +114,7 @@ def run_sim_case(spec, prop, extra_listeners=(), post=None, **run_kwargs):
     listeners = list(mons.values()) + list(extra_listeners)
     rr = sim.run_sim(spec, listeners, **run_kwargs)
     if rr.refused:
-        return {"violations": [], "counters": {"refused_mesh": 1}, "classes": ["refused"], "nontrivial": False}
+        return {"violations": [], "counters": {"refused_mesh": 1}, "classes": ["refused"], "nontrivial": False, "refused_reason": str(rr.refused)}
     V, C, W = [], {}, {}
     for name, m in mons.items():
         for v in m.V:
